@@ -28,6 +28,9 @@ ContainerThm.vos ContainerThm.vok ContainerThm.required_vos: ContainerThm.v Base
 Dilute.vo Dilute.glob Dilute.v.beautified Dilute.required_vo: Dilute.v Base.vo Units.vo Contents.vo Container.vo
 Dilute.vio: Dilute.v Base.vio Units.vio Contents.vio Container.vio
 Dilute.vos Dilute.vok Dilute.required_vos: Dilute.v Base.vos Units.vos Contents.vos Container.vos
+DiluteThm.vo DiluteThm.glob DiluteThm.v.beautified DiluteThm.required_vo: DiluteThm.v Base.vo Units.vo UnitsThm.vo Contents.vo Container.vo ContainerThm.vo ContainerThm2.vo Dilute.vo
+DiluteThm.vio: DiluteThm.v Base.vio Units.vio UnitsThm.vio Contents.vio Container.vio ContainerThm.vio ContainerThm2.vio Dilute.vio
+DiluteThm.vos DiluteThm.vok DiluteThm.required_vos: DiluteThm.v Base.vos Units.vos UnitsThm.vos Contents.vos Container.vos ContainerThm.vos ContainerThm2.vos Dilute.vos
 Solve.vo Solve.glob Solve.v.beautified Solve.required_vo: Solve.v Base.vo Units.vo Contents.vo Container.vo Dilute.vo
 Solve.vio: Solve.v Base.vio Units.vio Contents.vio Container.vio Dilute.vio
 Solve.vos Solve.vok Solve.required_vos: Solve.v Base.vos Units.vos Contents.vos Container.vos Dilute.vos
@@ -37,6 +40,12 @@ Plate.vos Plate.vok Plate.required_vos: Plate.v Base.vos Units.vos Contents.vos 
 Prog.vo Prog.glob Prog.v.beautified Prog.required_vo: Prog.v Base.vo Units.vo Contents.vo Container.vo Plate.vo Dilute.vo Solve.vo
 Prog.vio: Prog.v Base.vio Units.vio Contents.vio Container.vio Plate.vio Dilute.vio Solve.vio
 Prog.vos Prog.vok Prog.required_vos: Prog.v Base.vos Units.vos Contents.vos Container.vos Plate.vos Dilute.vos Solve.vos
+Parse.vo Parse.glob Parse.v.beautified Parse.required_vo: Parse.v Base.vo Units.vo
+Parse.vio: Parse.v Base.vio Units.vio
+Parse.vos Parse.vok Parse.required_vos: Parse.v Base.vos Units.vos
+ParseThm.vo ParseThm.glob ParseThm.v.beautified ParseThm.required_vo: ParseThm.v Base.vo Units.vo Parse.vo
+ParseThm.vio: ParseThm.v Base.vio Units.vio Parse.vio
+ParseThm.vos ParseThm.vok ParseThm.required_vos: ParseThm.v Base.vos Units.vos Parse.vos
 Slicer.vo Slicer.glob Slicer.v.beautified Slicer.required_vo: Slicer.v Base.vo Plate.vo
 Slicer.vio: Slicer.v Base.vio Plate.vio
 Slicer.vos Slicer.vok Slicer.required_vos: Slicer.v Base.vos Plate.vos
@@ -94,12 +103,18 @@ Props/C07.vos Props/C07.vok Props/C07.required_vos: Props/C07.v Base.vos Units.v
 Props/C10.vo Props/C10.glob Props/C10.v.beautified Props/C10.required_vo: Props/C10.v Base.vo Units.vo Contents.vo Container.vo ContainerThm.vo ContainerThm2.vo Dilute.vo Solve.vo Plate.vo PlateThm.vo SizeThm.vo Prog.vo HistoryThm.vo
 Props/C10.vio: Props/C10.v Base.vio Units.vio Contents.vio Container.vio ContainerThm.vio ContainerThm2.vio Dilute.vio Solve.vio Plate.vio PlateThm.vio SizeThm.vio Prog.vio HistoryThm.vio
 Props/C10.vos Props/C10.vok Props/C10.required_vos: Props/C10.v Base.vos Units.vos Contents.vos Container.vos ContainerThm.vos ContainerThm2.vos Dilute.vos Solve.vos Plate.vos PlateThm.vos SizeThm.vos Prog.vos HistoryThm.vos
+Props/C11.vo Props/C11.glob Props/C11.v.beautified Props/C11.required_vo: Props/C11.v Base.vo Units.vo UnitsThm.vo Contents.vo Container.vo ContainerThm.vo ContainerThm2.vo Dilute.vo DiluteThm.vo
+Props/C11.vio: Props/C11.v Base.vio Units.vio UnitsThm.vio Contents.vio Container.vio ContainerThm.vio ContainerThm2.vio Dilute.vio DiluteThm.vio
+Props/C11.vos Props/C11.vok Props/C11.required_vos: Props/C11.v Base.vos Units.vos UnitsThm.vos Contents.vos Container.vos ContainerThm.vos ContainerThm2.vos Dilute.vos DiluteThm.vos
 Props/C17.vo Props/C17.glob Props/C17.v.beautified Props/C17.required_vo: Props/C17.v Base.vo Units.vo Contents.vo Container.vo ContainerThm.vo ContainerThm2.vo Plate.vo PlateThm.vo
 Props/C17.vio: Props/C17.v Base.vio Units.vio Contents.vio Container.vio ContainerThm.vio ContainerThm2.vio Plate.vio PlateThm.vio
 Props/C17.vos Props/C17.vok Props/C17.required_vos: Props/C17.v Base.vos Units.vos Contents.vos Container.vos ContainerThm.vos ContainerThm2.vos Plate.vos PlateThm.vos
 Props/C13.vo Props/C13.glob Props/C13.v.beautified Props/C13.required_vo: Props/C13.v Base.vo Plate.vo Slicer.vo SlicerThm.vo
 Props/C13.vio: Props/C13.v Base.vio Plate.vio Slicer.vio SlicerThm.vio
 Props/C13.vos Props/C13.vok Props/C13.required_vos: Props/C13.v Base.vos Plate.vos Slicer.vos SlicerThm.vos
+Props/C14.vo Props/C14.glob Props/C14.v.beautified Props/C14.required_vo: Props/C14.v Base.vo Units.vo UnitsThm.vo GenBase.vo gen/UnitsGen.vo UnitsGenOK.vo Parse.vo ParseThm.vo
+Props/C14.vio: Props/C14.v Base.vio Units.vio UnitsThm.vio GenBase.vio gen/UnitsGen.vio UnitsGenOK.vio Parse.vio ParseThm.vio
+Props/C14.vos Props/C14.vok Props/C14.required_vos: Props/C14.v Base.vos Units.vos UnitsThm.vos GenBase.vos gen/UnitsGen.vos UnitsGenOK.vos Parse.vos ParseThm.vos
 Props/C16.vo Props/C16.glob Props/C16.v.beautified Props/C16.required_vo: Props/C16.v Base.vo GenBase.vo Lifecycle.vo LifecycleThm.vo gen/LifecycleGen.vo LifecycleGenOK.vo
 Props/C16.vio: Props/C16.v Base.vio GenBase.vio Lifecycle.vio LifecycleThm.vio gen/LifecycleGen.vio LifecycleGenOK.vio
 Props/C16.vos Props/C16.vok Props/C16.required_vos: Props/C16.v Base.vos GenBase.vos Lifecycle.vos LifecycleThm.vos gen/LifecycleGen.vos LifecycleGenOK.vos
